@@ -11,6 +11,7 @@ from ..core import AnalysisError, FuncInfo, Repo, unparse
 from ..prov import callee_name
 from ..report import Finding, RuleResult
 from . import c01, c05, c07, c08, c14, c16
+from . import _c10_util as U
 
 TP = "lisp_parsers.trajectory_parser"
 
@@ -61,7 +62,7 @@ def rule_keywords(repo: Repo) -> RuleResult:
     writers = ["State.serialize", "TrajectoryExporter.export", "MultiAgentTrajectoryExporter.export"]
     written: Set[str] = set()
     for w in writers:
-        f = L.fn(repo, w)
+        f = U.deep(repo, w)        # helpers in place also where they are called inside comprehensions; templates of their modules folded
         lits = list(T.function_literals(f))
         # literals kept in module constants
         for n in ast.walk(f.node):
@@ -73,7 +74,7 @@ def rule_keywords(repo: Repo) -> RuleResult:
         r.site(f.qn)
         written |= kw
         r.ok({"writer": f.qn, "keywords": sorted(kw)})
-    f = L.fn(repo, "TrajectoryParser.parse_trajectory")
+    f = U.deep(repo, "TrajectoryParser.parse_trajectory")
     read: Set[str] = {k for _n, k, _pos in _keyword_tests(repo, f)}
     r.site(f.qn)
     if written == read and written:
@@ -189,7 +190,7 @@ def rule_siblings(repo: Repo) -> RuleResult:
 def rule_thread(repo: Repo) -> RuleResult:
     r = RuleResult("C10.thread", "parse_trajectory: pre-state = initial state or copy of the previous post-state; one component per operator line; missing :state raises",
                    "the parsed observation is a chain with one component per action")
-    f = L.fn(repo, "TrajectoryParser.parse_trajectory")
+    f = U.deep(repo, "TrajectoryParser.parse_trajectory")
     p = L.prov(repo, f)
     g = C.cfg_of(f.node)
     adds = [c for c in L.calls_in(f.node) if callee_name(c) == "add_component"]
@@ -224,22 +225,26 @@ def rule_thread(repo: Repo) -> RuleResult:
         r.ok({"post_state": "parse_state(item after the operator line)", "action": "parse_action_call | parse_joint_action"})
     else:
         r.fail(Finding("C10.thread", f, "post-or-action", "post-state / action of a component do not come from the operator line and the following :state item", node=a))
-    # indices: operator at index, state at index + 1, step 2
+    # positions: the action of the k-th component is computed from item 1 + 2k of the token sequence, its post-state from item 2 + 2k
+    # (however the items are reached: indices of a range, slices, zip / enumerate / count, an induction variable, records, tuples)
     r.site(f.qn + " [alternation]")
-    loops = [n for n in ast.walk(f.node) if isinstance(n, ast.For) and isinstance(n.iter, ast.Call) and callee_name(n.iter) == "range"
-             and any(x is a for x in ast.walk(n))]
-    ok = False
-    if loops:
-        rg = loops[0].iter
-        ok = len(rg.args) == 3 and isinstance(rg.args[0], ast.Constant) and rg.args[0].value == 1 and isinstance(rg.args[2], ast.Constant) and rg.args[2].value == 2
-        idx = loops[0].target.id if isinstance(loops[0].target, ast.Name) else None
-        subs = {ast.unparse(n.slice) for n in ast.walk(loops[0]) if isinstance(n, ast.Subscript) and
-                any("call:parse" in x for x in p.trace(n.value))}
-        ok = ok and idx is not None and {idx, f"{idx} + 1"} <= subs
+
+    def whole_sequence(e):
+        tr = p.trace(e)
+        return bool(tr) and all(x[-1] == "call:parse" for x in tr)
+
+    pos = U.Positions(repo, f, whole_sequence)
+    act_src, post_src = pos.sources(act), pos.sources(post)
+    ok = len(act_src) == 1 and len(post_src) == 1
+    if ok:
+        (a,), (b,) = tuple(act_src), tuple(post_src)
+        ok = len(a) == 3 and len(b) == 3 and a[:2] == (1, 2) and b[:2] == (2, 2) and a[2] is not None and a[2] == b[2]
     if ok:
         r.ok({"alternation": "operator at i, state at i+1, i = 1, 3, 5, ..."})
     else:
-        r.fail(Finding("C10.thread", f, "alternation", "operator lines and states are not read alternately from index 1"))
+        fmt = lambda srcs: sorted("?" if x == pos.UNKNOWN else f"{x[0]}+{x[1]}k" for x in srcs)
+        r.fail(Finding("C10.thread", f, "alternation", f"operator lines and states are not read alternately from index 1 (action from items {fmt(act_src)}, "
+                       f"post-state from items {fmt(post_src)})"))
     # missing :state / unknown operator keyword raise
     r.site(f.qn + " [rejections]")
     tests = {id(n): (k, pos) for n, k, pos in _keyword_tests(repo, f) if k in ("operator:", "operators:", ":state")}
